@@ -55,6 +55,8 @@ def construction_rules(ctx, R, E):
     da.rule_dispatch(ctx, R, E.NR, E.BR, rules={"NFA-DISPATCH", "CW-NB", "VALID-PROP"})
     nfa.rule_add(ctx, R, E.NR, rules={"VAL-ADD", "STAT-NS"})
     nfa.rule_num_bytes(ctx, R, E.NR)
+    nfa.rule_child_id(ctx, R, E.NR)
+    da.rule_builder_config(ctx, R)
     da.rule_build_entry(ctx, R, E.NR, E.BR, rules={"B-MOVE"})
     da.rule_sanitiser(ctx, R, E.NR, E.BR)
     da.rule_array_growth(ctx, R, E.NR, E.BR)
@@ -191,6 +193,7 @@ def run_C10(ctx, R):
 def run_C11(ctx, R):
     E = Env(ctx, R)
     helper.rule_helper(ctx, R)
+    da.rule_builder_config(ctx, R)
     da.rule_array_growth(ctx, R, E.NR, E.BR)
     da.rule_sanitiser(ctx, R, E.NR, E.BR)
     da.rule_placement(ctx, R, E.NR, E.BR, rules={"KNOB-SAN", "DA-BASE", "B-EXT"})
